@@ -16,7 +16,8 @@ RULE = ("Hypothesis RuleBasedStateMachine (rules = addfilter, updatefilter, repl
         "disablefilter, movefilter; names from a pool of 3 plus one never-added name; definitions from a pool of 4; <= 30 steps) "
         "and exhaustive enumeration of all histories up to length 3 (quick) / 4 (thorough), and of all continuations of length 2 / 3 of a set "
         "that already holds the three names, over the same pools (replacefilter also with the content object of another filter of "
-        "the set, which the two then share) through the same interpreter; oracle: reference ordered-unique-list model compared after every step (names/order, FilterAlreadyExists, "
+        "the set, which the two then share; in the machine and the continuations also names that differ from a pool name only by a "
+        "surrounding blank or by case) through the same interpreter; oracle: reference ordered-unique-list model compared after every step (names/order, FilterAlreadyExists, "
         "position and enabled flag kept by update/replace, move by one within bounds, unknown names change nothing, enabled flag "
         "== not is_filter_disabled == rendering wrapped in 'if false' with exactly one child, getfilter renders the last supplied "
         "definition). Non-trivial = history repeats an operation kind on the same name or mixes >= 3 kinds; distinct by history.")
@@ -39,18 +40,22 @@ def rendered_def(i):
     return _RENDERED[i]
 
 
-def all_ops():
+# names that differ from a pool name only by a surrounding blank or by case: different names
+TWINS = ["n1 ", " n2", "N3"]
+
+
+def all_ops(twins=False):
     ops = []
-    for n in NAMES + [GHOST]:
+    for n in NAMES + [GHOST] + (TWINS if twins else []):
         if n != GHOST:
-            for d in range(len(DEFS)):
+            for d in range(len(DEFS) if n in NAMES else 1):
                 ops.append({"op": "add", "name": n, "def": d})
         for k in ("remove", "enable", "disable"):
             ops.append({"op": k, "name": n})
         for dr in ("up", "down"):
             ops.append({"op": "move", "name": n, "dir": dr})
-        for new in NAMES:
-            ops.append({"op": "update", "name": n, "newname": new, "def": (NAMES.index(new) + 1) % len(DEFS)})
+        for new in NAMES + (TWINS[:1] if twins else []):
+            ops.append({"op": "update", "name": n, "newname": new, "def": ((NAMES + TWINS).index(new) + 1) % len(DEFS)})
         for new in NAMES + [None]:
             ops.append({"op": "replace", "name": n, "newname": new, "def": 1, "description": "d" if new is None else None})
     # replacefilter with the content object of another filter of the set (shared from then on)
@@ -223,7 +228,7 @@ def populated_worker(arg):
     """All continuations of a set that already holds every name (distinct definitions)."""
     first, maxlen = arg
     col = core.Collector()
-    ops = all_ops()
+    ops = all_ops(twins=True)
     prefix0 = [{"op": "add", "name": n, "def": i % len(DEFS)} for i, n in enumerate(NAMES)]
 
     def rec(prefix, depth):
@@ -240,7 +245,7 @@ def populated_worker(arg):
 def machine_worker(arg):
     sd, n, steps = arg
     col = core.Collector()
-    ops_pool = all_ops()
+    ops_pool = all_ops(twins=True)
 
     class FilterSetMachine(RuleBasedStateMachine):
         def __init__(self):
@@ -286,7 +291,7 @@ def main(tier, seed, t0):
     nops = len(all_ops())
     maxlen = 3 if quick else 4
     shards = [("ex", (i, maxlen)) for i in range(nops)]
-    shards += [("pop", (i, 2 if quick else 3)) for i in range(nops)]
+    shards += [("pop", (i, 2 if quick else 3)) for i in range(len(all_ops(twins=True)))]
     shards += [("sm", (seed * 1000 + 900 + k, 60 if quick else 1200, 30)) for k in range(16)]
     col = core.run_shards(worker, shards)
     need = ["src:exhaustive", "src:populated", "src:machine", "op:add", "op:update", "op:replace", "op:remove", "op:enable", "op:disable", "op:move"]
